@@ -130,6 +130,13 @@ func racUF0(name string, a ...*big.Int) *big.Int {
 		return uint(a[k].Uint64())
 	}
 	switch name {
+	case "uf_dchar":
+		// character a[1] of the decimal text of |a[0]| (math/big's own text: the trusted meaning of the symbol)
+		t := new(big.Int).Abs(a[0]).Text(10)
+		if !a[1].IsInt64() || a[1].Int64() < 0 || a[1].Int64() >= int64(len(t)) {
+			return z.SetInt64(-1)
+		}
+		return z.SetInt64(int64(t[a[1].Int64()]))
 	case "uf_and":
 		return z.And(a[0], a[1])
 	case "uf_andnot":
